@@ -1,7 +1,6 @@
 package main
 
 import (
-	"strings"
 	"crypto/rand"
 	"encoding/binary"
 	"encoding/json"
@@ -13,7 +12,9 @@ import (
 	"runtime"
 	"sort"
 	"strconv"
+	"strings"
 	"sync/atomic"
+	"time"
 	"syscall"
 	"unsafe"
 
@@ -101,6 +102,8 @@ func observeDraw(n uint32, words []uint32) drawObs {
 		prev := simr.cur
 		simr.cur = t
 		defer func() { simr.cur = prev }()
+		atomic.StoreInt64(&opClock.start, time.Now().UnixNano()) // "selection terminates": a spinning draw is a hang
+		defer atomic.StoreInt64(&opClock.start, 0)
 		o.res = spg.VerifRandomUint32n(n)
 		o.outcome = "ok"
 	}()
